@@ -687,3 +687,51 @@ func VerifC08_GraphDegenerate() {
 		zzverif.Reach("rejected")
 	}
 }
+
+// VerifC08_PlainGraphDegenerate: the plain (gonum-backed) graph builder on the
+// same degenerate models - panic monitor only (C17's claims about the graph
+// itself stay not applicable).
+func VerifC08_PlainGraphDegenerate() {
+	restr := [][]*openfgav1.RelationReference{
+		{fRef("user")},
+		{{Type: "user", RelationOrWildcard: &openfgav1.RelationReference_Relation{Relation: ""}}},
+		{nil, fRef("user")},
+		{{Type: "", RelationOrWildcard: &openfgav1.RelationReference_Wildcard{}}},
+		{fUserset("ghost", "r"), fWild("user")},
+	}[zzverif.Choose("restrictions", 5)]
+	var x *openfgav1.Userset
+	switch zzverif.Choose("rewrite", 8) {
+	case 0:
+		x = nil
+	case 1:
+		x = &openfgav1.Userset{}
+	case 2:
+		x = fThis()
+	case 3:
+		x = &openfgav1.Userset{Userset: &openfgav1.Userset_TupleToUserset{}}
+	case 4:
+		x = fOp(zzverif.Choose("op", 3), nil, fThis())
+	case 5:
+		x = &openfgav1.Userset{Userset: &openfgav1.Userset_Difference{}}
+	case 6:
+		x = fTTU("a", "ghost")
+	case 7:
+		x = fOp(zzverif.Choose("op", 3), fThis(), fTTU("a", "p"))
+	}
+	td := &openfgav1.TypeDefinition{Type: "doc", Relations: map[string]*openfgav1.Userset{"a": fThis(), "p": fThis(), "x": x}}
+	if zzverif.Choose("metadata", 3) > 0 {
+		td.Metadata = &openfgav1.Metadata{Relations: map[string]*openfgav1.RelationMetadata{
+			"a": {DirectlyRelatedUserTypes: restr}, "p": {DirectlyRelatedUserTypes: []*openfgav1.RelationReference{fRef("doc")}}, "x": {DirectlyRelatedUserTypes: restr}}}
+		if zzverif.Choose("nil-relation-metadata", 2) == 1 {
+			td.Metadata.Relations["x"] = nil
+		}
+	}
+	m := &openfgav1.AuthorizationModel{SchemaVersion: "1.1", TypeDefinitions: []*openfgav1.TypeDefinition{{Type: "user"}, td}}
+	g, err := NewAuthorizationModelGraph(m)
+	if err == nil {
+		zzverif.Reach("accepted")
+		zzverif.Assert(g != nil, "result-or-error")
+	} else {
+		zzverif.Reach("rejected")
+	}
+}
